@@ -2,9 +2,6 @@ import Arc.Model.C15
 /-! Helper lemmas for C15: scanners return a split of their input. -/
 namespace Arc.C15
 
-theorem mBody_split (q : UInt8) (pb : Bool) (t : Bytes) : (mBody q pb t).1 ++ (mBody q pb t).2 = t := by
-  fun_induction mBody q pb t <;> simp_all +zetaDelta
-
 theorem lBody_split (q : UInt8) (t : Bytes) : (lBody q t).1 ++ (lBody q t).2 = t := by
   fun_induction lBody q t <;> simp_all +zetaDelta
 
@@ -82,18 +79,24 @@ theorem mTok_split (prev c : UInt8) (t : Bytes) : (mTok prev c t).1.bytes ++ (mT
         have := dollarTok_split _ _ _ _ _ hd
         simp [Seg.bytes, this, hc0]
       · simp [Seg.bytes]
-  · split
-    · rename_i h
-      simp at h
-      have := head?_tail t QUOTE h.1.2
-      simp only [Seg.bytes]
-      have h2 := mBody_split QUOTE false t.tail
-      simp [h2, this]
-    · split
-      · simp [Seg.bytes, mBody_split]
-      · split
-        · simp [Seg.bytes, mBody_split]
-        · simp [Seg.bytes]
+  split
+  · rename_i h
+    simp at h
+    have := head?_tail t QUOTE h.1.2
+    have h2 := lEBody_split t.tail
+    simp [Seg.bytes, h2, this]
+  split
+  · simp only [Seg.bytes]; exact span_split _ _
+  split
+  · rename_i h
+    have := head?_tail t STAR h.2
+    have h2 := lBlock_split 1 t.tail
+    simp [Seg.bytes, h2, this]
+  split
+  · simp [Seg.bytes, lBody_split]
+  split
+  · simp [Seg.bytes, lBody_split]
+  · simp [Seg.bytes]
 
 theorem sTok_split (c : UInt8) (t : Bytes) : (sTok c t).1.bytes ++ (sTok c t).2 = c :: t := by
   unfold sTok
@@ -151,11 +154,17 @@ theorem mTok_pos (prev c : UInt8) (t : Bytes) : 1 ≤ (mTok prev c t).1.bytes.le
     · split
       · rename_i hd; simpa [Seg.bytes] using dollarTok_pos _ _ _ _ _ hd
       · simp [Seg.bytes]
-  · split
-    · simp [Seg.bytes]
-    · split
-      · simp [Seg.bytes]
-      · split <;> simp [Seg.bytes]
+  split
+  · simp [Seg.bytes]
+  split
+  · rename_i h
+    have : (fun b => b != NL) c = true := by simp [h.1, DASH, NL]
+    simp [Seg.bytes, spanP, this]
+  split
+  · simp [Seg.bytes]
+  split
+  · simp [Seg.bytes]
+  split <;> simp [Seg.bytes]
 
 theorem sTok_pos (c : UInt8) (t : Bytes) : 1 ≤ (sTok c t).1.bytes.length := by
   unfold sTok
